@@ -2,7 +2,11 @@
 
 package ordered
 
-import "gopkg.in/yaml.v3"
+import (
+	"encoding/json"
+
+	"gopkg.in/yaml.v3"
+)
 
 // C08 - order-significant mappings keep document order through decode and encode.
 
@@ -77,6 +81,32 @@ func vpH_c08_roundtrip() {
 			inner.Set(vpStrUpTo(1, "a-b"), vpStrUpTo(1, "x-y"))
 			m.Set(k, inner)
 		}
+	}
+	// programmatic maps have histories: deletions and renames leave tombstoned
+	// slots behind (front, middle or end) that the emitters must step over
+	for o := vpInt(0, vpParam("ops")); o > 0; o-- {
+		var keys []string
+		m.Range(func(k string, _ any) error { keys = append(keys, k); return nil })
+		if len(keys) == 0 {
+			break
+		}
+		k := keys[vpInt(0, len(keys)-1)]
+		if vpBool() {
+			m.Delete(k)
+		} else {
+			m.Replace(k, keys[vpInt(0, len(keys)-1)], "r")
+		}
+	}
+	// JSON: bytes -> yaml.Unmarshal (JSON is YAML) -> DecodeYAML
+	jb, jerr := json.Marshal(m)
+	vpAssert(jerr == nil, "json.Marshal of a programmatically built map succeeds")
+	if jerr == nil {
+		var jn yaml.Node
+		vpAssert(yaml.Unmarshal(jb, &jn) == nil, "the emitted JSON is readable")
+		jback, err := DecodeYAML(&jn)
+		vpAssert(err == nil, "the emitted JSON decodes")
+		jm, ok := jback.(*Map[string, any])
+		vpAssert(ok && Equal(m, jm), "JSON encode then decode gives an Equal map (keys, values, order)")
 	}
 	// YAML: node tree -> DecodeYAML
 	y, err := m.MarshalYAML()
